@@ -16,13 +16,14 @@ from ..seq import Unroll, cosim
 
 PROP = "C23"
 LEVEL = "model_checking"
-TECHNIQUE = "BMC of a miter (DUT memory vs amaranth.lib.memory.Memory in one netlist) from reset, all port stimuli, one query per cycle depth; pysim replay"
+TECHNIQUE = ("BMC of a miter (DUT memory vs amaranth.lib.memory.Memory in one netlist) from reset, all port stimuli; one query per "
+             "(cycle, read port) with the equalities of earlier cycles as already-proven lemmas; amaranth.sim replay of every counterexample")
 BOUNDS = {
     "quick": "4 classes; (depth,width) in {(4,2),(4,4),(8,2)} with (r,w) in {(1,2),(2,2)} (MultiReadMemory: w=1), transparent in {all,none}, "
              "init in {[], non-zero}; plus depth 16 x width 2 (address wider than data), depth 3, mixed transparency, partial init and "
-             "granularity (MultiReadMemory; ILVT with 1 and 2 write ports); BMC 6 cycles from reset (5 for depth 16), all addresses/data/enables",
+             "granularity (MultiReadMemory; both ILVT memories with 1 and 2 write ports); BMC 6 cycles from reset (5 for depth 16), all addresses/data/enables",
     "thorough": "as quick plus (r,w) up to (3,3), depths 3,5,6, depth 16 x width 2 for all classes and transparencies, mixed transparency, "
-                "partial init, granularity 1/2 (MultiReadMemory, ILVT); BMC 9 cycles (7 for depth 16 and for 3 write ports)",
+                "partial init, granularity 1/2 (MultiReadMemory, ILVT memories with one write port); BMC 9 cycles (7 for depth 16 and for 3 ports of a kind)",
 }
 OUTSIDE = ["histories longer than the BMC bound", "depths/widths/port counts not enumerated", "signed or structured shapes",
            "two enabled write ports addressing the same row in one cycle (documented as undefined)", "addresses >= depth",
@@ -119,7 +120,8 @@ def configs(tier, seed):
                 for transp in ("all", "none"):
                     for init in ("zero", "full"):
                         out.append(_mk(cls, depth, width, nr, nw, transp, init, K))
-    # regression configurations for the three defects found in the design phase, and the remaining axes (always in quick)
+    # regression configurations for the defects found (address wider than data, non-zero init, granularity) and the remaining axes;
+    # they are part of BOTH tiers so that a regression is caught on every change
     for cls in ilvt:
         out.append(_mk(cls, 16, 2, 1, 2, "all", "zero", 5 if tier == "quick" else 7))     # address (4 bits) wider than data (2 bits)
     out.append(_mk("MultiportXORMemory", 16, 2, 1, 2, "all", "zero", 5 if tier == "quick" else 7))
@@ -133,8 +135,7 @@ def configs(tier, seed):
     out.append(_mk("MultiReadMemory", 4, 4, 2, 1, "all", "full", K, gran=2))
     out.append(_mk("MultiReadMemory", 4, 2, 1, 1, "none", "zero", K, gran=1))
     for cls in ilvt:
-        if cls != "MultiportOneHotILVTMemory":      # one write port makes OneHotCodedILVT build zero-width memories (not encodable)
-            out.append(_mk(cls, 4, 2, 1, 1, "all", "full", K, gran=1))                      # granularity, one write port
+        out.append(_mk(cls, 4, 2, 1, 1, "all", "full", K, gran=1))                          # granularity, one write port
         out.append(_mk(cls, 4, 2, 1, 2, "all", "zero", K, gran=1))                          # granularity, two write ports
         out.append(_mk(cls, 4, 2, 1, 2, "none", "zero", K, gran=1))
     if tier == "quick":
@@ -158,7 +159,8 @@ def configs(tier, seed):
     for g, width in ((1, 2), (2, 4), (1, 3)):
         for transp in ("all", "none"):
             out.append(_mk("MultiReadMemory", 4, width, 2, 1, transp, "full", K, gran=g))
-            out.append(_mk("MultiportXORILVTMemory", 4, width, 2, 1, transp, "full", K, gran=g))
+            for cls in ilvt:
+                out.append(_mk(cls, 4, width, 2, 1, transp, "full", K, gran=g))
     seen, uniq = set(), []
     for c in out:
         k = tuple(sorted(c.items(), key=lambda kv: kv[0]))
